@@ -9,6 +9,8 @@ pub const HOSTILE: &[&str] = &[
     "0", "1", "7", "9", "b", "o", "x", "e", "E", ".", "_", "\"", "'", "/", "*", "#", "$", "@", "p", "O", "µ", "\0",
     "\n", "\r", "\u{2028}", "\u{200d}", "😀", "𝔘", "é", " ", "\t", ";", "(", ")", "[", "]", "{", "}", "=", "-", "+",
     "<", ">", "&", "|", "!", "~", ":", ",", "s", "d", "t", "i", "m", "n", "a", "q", "\\", "§", "P", "r", "g",
+    // boundaries of the UTF-8 encoding lengths, blanks outside the lexer's whitespace set, the byte order mark
+    "\u{7f}", "\u{80}", "\u{7ff}", "\u{800}", "\u{ffff}", "\u{10000}", "\u{10ffff}", "\u{a0}", "\u{3000}", "\u{feff}", "\u{85}",
 ];
 
 pub fn hostile_string(r: &mut Rng, maxlen: usize) -> String {
